@@ -139,11 +139,12 @@ impl UacAuthenticator for DigestAuthenticator {
         let response = match qop_response.qop {
             QopOption::Auth | QopOption::AuthInt => (qop_entry.hash)(
                 format!(
-                    "{}:{}:{:08X}:{}:auth:{}",
+                    "{}:{}:{:08X}:{}:{}:{}",
                     qop_entry.ha1,
                     digest.nonce,
                     qop_response.nc,
                     qop_response.cnonce,
+                    qop_response.qop,
                     qop_entry.ha2
                 )
                 .as_bytes(),
@@ -208,7 +209,8 @@ impl DigestAuthenticator {
         );
 
         if is_session {
-            ha1 = format!("{}:{}:{}", ha1, challenge.nonce, cnonce);
+            // A1 = H(user:realm:password):nonce:cnonce, and HA1 is the hash of that (RFC 7616 3.4.2)
+            ha1 = hash(format!("{}:{}:{}", ha1, challenge.nonce, cnonce).as_bytes());
         }
 
         let ctx = PrintCtx {
